@@ -24,6 +24,7 @@ abbrev mkGotKey : Nat := 20  -- `ThreadKey::get()` inside a hold returned a key
 abbrev mkNoKeyInside : Nat := 21
 abbrev mkSeenPoisoned : Nat := 22  -- `is_poisoned()` inside a hold
 abbrev mkSeenClean : Nat := 23
+abbrev mkKeyInUnlock : Nat := 24  -- (harness probe) the thread's key was obtainable inside a raw unlock
 
 inductive Api | lock | tryLock | scoped | scopedTry
   deriving DecidableEq, Repr, Inhabited
@@ -236,9 +237,8 @@ def guardSession (C : Ctx) (S : Shape) (ses : Session) (u : UserSt) : Prog Unit 
           done (mkOutPanic, u'))
         fun _ => guardPhase C S ses u'
 
-/-- A session through the scoped APIs. `utils::scoped_*`, `Mutex::scoped_*`, `RwLock::scoped_*`
-drop the key before the final unlock; `Poisonable::scoped_*` unlocks first and poisons when
-the closure unwinds. -/
+/-- A session through the scoped APIs: the locks are released first, then the key is given
+back; `Poisonable::scoped_*` additionally poisons when the closure unwinds. -/
 def scopedUnwound (ses : Session) (u' : UserSt) : Prog Unit (Nat × UserSt) :=
   dropKeyIf ses.key (op (.mark mkEndCall) fun _ => op (.mark mkKeyBack) fun _ => done (mkOutPanic, u'))
 
@@ -256,16 +256,11 @@ def scopedHeld (C : Ctx) (S : Shape) (ses : Session) (u' : UserSt) : Prog Unit (
     match isPoisonableTop S with
     | some p => op (.poisonSet p) fun _ => L.rel ses.mode
     | none => L.rel ses.mode
+  -- every scoped function releases first and gives the key back afterwards (since the repair of
+  -- D14 also `utils::scoped_*`, `Mutex::scoped_*`, `RwLock::scoped_*`, which used to `drop(key)` first)
   bindX (handle () closure (fun _ => onUnwind)) (fun _ => scopedUnwound ses u') fun _ =>
-    match isPoisonableTop S with
-    | some _ =>
-      bindX (L.rel ses.mode) (fun _ => scopedUnwound ses u') fun _ =>
-        dropKeyIf ses.key (op (.mark mkEndCall) fun _ => op (.mark mkKeyBack) fun _ => done (out, u'))
-    | none =>
-      dropKeyIf ses.key
-        (bindX (L.rel ses.mode)
-          (fun _ => op (.mark mkEndCall) fun _ => op (.mark mkKeyBack) fun _ => done (mkOutPanic, u'))
-          fun _ => op (.mark mkEndCall) fun _ => op (.mark mkKeyBack) fun _ => done (out, u'))
+    bindX (L.rel ses.mode) (fun _ => scopedUnwound ses u') fun _ =>
+      dropKeyIf ses.key (op (.mark mkEndCall) fun _ => op (.mark mkKeyBack) fun _ => done (out, u'))
 
 def scopedSessionWith (C : Ctx) (S : Shape) (ses : Session) (u u' : UserSt) :
     Prog Unit (Nat × UserSt) :=
